@@ -9,6 +9,7 @@ from __future__ import annotations
 
 import json
 import os
+import shutil
 from fractions import Fraction as Fr
 
 from . import lib, predfam
@@ -468,10 +469,73 @@ def canon(sc):
     return json.loads(json.dumps({k: sc[k] for k in ("kind", "res", "ref", "res_state", "ref_state", "opts", "edits")}, default=str))
 
 
+def domain_tolerance_stream(ctx, n):
+    """the tolerances given for `domain` (or globally) apply to the point coordinates of BOTH meshes: a .vtu pair whose
+    coordinates differ by d at one point passes iff d is within the tolerance in play, whichever file carries the deviation,
+    with and without mesh reordering"""
+    import random as _random
+    rng = ctx.rng
+    for it in range(n):
+        nx, ny = rng.randint(1, 3), rng.randint(1, 2)
+        pts, cells = lattice_mesh(rng, nx, ny)
+        u = [rng.randint(-8, 8) / 4.0 for _ in pts]
+        d = 2.0 ** rng.randint(-20, -8)                       # deviation of one coordinate (far above the default 1e-8 * max|x|)
+        within = rng.random() < 0.5
+        tol = d * 8 if within else d / 8
+        how = rng.choice(["-atol domain", "-rtol domain", "-atol global"])
+        i = rng.randrange(len(pts))
+        noisy = [list(p) for p in pts]
+        axis = rng.randrange(2)
+        noisy[i][axis] += d
+        noisy_is_ref = rng.random() < 0.5
+        no_reorder = rng.random() < 0.5
+        root = os.path.join(str(ctx.workdir), f"dt{it}")
+        os.makedirs(root)
+        res, ref = os.path.join(root, "res.vtu"), os.path.join(root, "ref.vtu")
+        a_pts, b_pts = (pts, noisy) if noisy_is_ref else (noisy, pts)
+        V.write_vtu(res, a_pts, cells, [("u", "Float64", 1, u)], [], V.Cfg("ascii"))
+        if no_reorder:
+            V.write_vtu(ref, b_pts, cells, [("u", "Float64", 1, u)], [], V.Cfg("ascii"))
+        else:
+            p2, c2, pf2, _ = permute_mesh(_random.Random(it), b_pts, cells, [("u", "Float64", 1, u)], [])
+            V.write_vtu(ref, p2, c2, pf2, [], V.Cfg("ascii"))
+        scale = max(abs(x) for p in pts + noisy for x in p) or 1.0
+        if how == "-rtol domain":
+            argv_t = ["-rtol", f"domain:{tol / scale * (4 if within else 0.25)!r}"]   # relative to the coordinate magnitude in play
+            # the relative tolerance scales with max(|a|,|b|) of the entry itself, which is <= scale: only the clear cases are kept
+            entry = abs(noisy[i][axis])          # the relative tolerance is scaled by the magnitude of the deviating entry itself
+            eff = (tol / scale * (4 if within else 0.25)) * entry
+            if (within and eff < 2 * d) or (not within and eff > d / 2):
+                shutil.rmtree(root, ignore_errors=True)
+                continue
+        elif how == "-atol domain":
+            argv_t = ["-atol", f"domain:{tol!r}"]
+        else:
+            argv_t = ["-atol", repr(tol)]
+        argv = ["file", res, ref, "--verbosity", "0"] + argv_t + (["--disable-mesh-reordering"] if no_reorder else [])
+        import warnings
+        with warnings.catch_warnings():
+            warnings.simplefilter("ignore")
+            rc, log, exc = run_cli(argv)
+        shutil.rmtree(root, ignore_errors=True)
+        sc = {"domain_tolerance": {"option": argv_t, "deviation": d, "within": within, "noisy_file": "reference" if noisy_is_ref else "result",
+                                   "disable_mesh_reordering": no_reorder, "nx": nx, "ny": ny, "point": i}}
+        ctx.case(sc, True, sample={"scenario": sc, "exit": rc})
+        ctx.count(f"domain tolerance:{how}:{'within' if within else 'beyond'}:{'no reordering' if no_reorder else 'reordered'}")
+        ctx.tie("T2 domain tolerance applies to both meshes")
+        if exc:
+            ctx.violation("E4", f"exception escaped the CLI: {exc}", sc)
+        elif (rc == 0) != within:
+            ctx.violation("E4", f"exit status {rc} although the coordinate deviation {d:g} is {'within' if within else 'beyond'} the "
+                                f"tolerance given for the domain ({' '.join(argv_t)}; deviation in the {sc['domain_tolerance']['noisy_file']} file)", sc)
+        ctx.traces_validated += 1
+
+
 def run(ctx):
     ctx.prove()
     t1(ctx)
     t1_read_as(ctx)
+    domain_tolerance_stream(ctx, 60 if ctx.tier == "quick" else 1500)
     n = 1500 if ctx.tier == "quick" else 40000
     scs = gen_scenarios(ctx.rng, n)
     impls = [run_impl(sc, str(ctx.workdir), i, want_junit=False) for i, sc in enumerate(scs)]
